@@ -240,8 +240,8 @@ func C08(tier string) int {
 			}
 		}
 	}
-	run.Rule = fmt.Sprintf("(a) corpus of %d conversations (DATA/BDAT transfers, AUTH, several transactions, errors; SMTP, LMTP, LMTP per-recipient) cut at EVERY byte offset x terminal answer {EOF, timeout, reset} x {one segment, one octet per segment}; (b) %d close-reason cases: connection states {fresh, greeted, authenticated, MAIL, RCPT, mid-BDAT, after a message} x server-initiated close {QUIT, 4th protocol error, over-long line, backend panic in Mail/Rcpt/Data/BDAT delivery} x every suffix and every single element of a pool of %d follow-up commands already buffered behind the closing command x {same segment, next segment, per octet}. All executions run in synctest bubbles: the bubble must drain (no goroutine of the connection left). Distinct by construction; non-trivial = a session exists at the cut / a suffix is buffered. Oracle on the backend trace: every session gets exactly one Logout, no callback begins after it, no session is created after the end, no recovered panic unless the backend panicked, output identical to the conversation without the buffered suffix.", len(corpus), len(closeCases), len(pool))
-	run.Assumptions = []string{"an unterminated fragment that the line reader hands out before it reports EOF counts as input received before the disconnect", "STARTTLS conversations (two sessions per connection) are judged in C10"}
+	run.Rule = fmt.Sprintf("(a) corpus of %d conversations (DATA/BDAT transfers, AUTH, several transactions, errors; SMTP, LMTP, LMTP per-recipient) cut at EVERY byte offset x terminal answer {EOF, timeout, reset} x {one segment, one octet per segment}; (b) %d close-reason cases: connection states {fresh, greeted, authenticated, MAIL, RCPT, mid-BDAT, after a message} x server-initiated close {QUIT, 4th protocol error, over-long line, backend panic in Mail/Rcpt/Data/BDAT delivery} x every suffix and every single element of a pool of %d follow-up commands already buffered behind the closing command x {same segment, next segment, per octet}. All executions run in synctest bubbles: the bubble must drain (no goroutine of the connection left). Distinct by construction; non-trivial = a session exists at the cut / a suffix is buffered. (c) STARTTLS conversations over a real TLS layer: {handshake completes, the client sends non-handshake octets, the client hangs up instead} x 5 plaintext prefixes (none ... mid-BDAT) x 7 continuations x 3 terminal answers, judged per session. Oracle on the backend trace: every session gets exactly one Logout, no callback begins after it, no session is created after the end, no recovered panic unless the backend panicked, output identical to the conversation without the buffered suffix.", len(corpus), len(closeCases), len(pool))
+	run.Assumptions = []string{"an unterminated fragment that the line reader hands out before it reports EOF counts as input received before the disconnect", "for STARTTLS conversations (two sessions per connection) the oracle is per session: exactly one Logout each, nothing on a session after its own Logout"}
 
 	type job struct{ ci, cut int }
 	var jobs []job
@@ -292,5 +292,132 @@ func C08(tier string) int {
 			run.Sample("close", 4, map[string]interface{}{"mode": c.Mode, "state": c.Prefix, "reason": c.Reason, "seg": c.Seg, "input": fmt.Sprintf("%q", c.In)})
 		}
 	})
+	tcases := c08TLSCases()
+	h.ParallelFor(len(tcases), func(i int) {
+		c := tcases[i]
+		f := evalC08TLS(c)
+		run.Eval(true)
+		if f != nil {
+			run.Violate("c08-tls", c, f, func() *h.Finding { return evalC08TLS(c) })
+			run.Outcome("violation:" + f.Sig)
+		} else {
+			run.Outcome("tls-ok:" + c.Handshake)
+		}
+		if i%97 == 5 {
+			run.Sample("starttls-case", 3, c)
+		}
+	})
 	return run.Finish()
+}
+
+// ---- conversations with STARTTLS (two sessions per connection, or a failed handshake) -----------------
+
+type C08TLSCase struct {
+	Handshake string   `json:"handshake"` // good | garbage (the client sends non-handshake octets) | disconnect (the client hangs up instead)
+	Before    []string `json:"before"`    // commands before STARTTLS
+	After     []string `json:"after"`     // commands after the (attempted) upgrade
+	Term      string   `json:"term"`
+}
+
+// perSessionOracle: every session exactly one Logout, and no callback on a session begins after ITS Logout.
+func perSessionOracle(tr []h.Event) *h.Finding {
+	logouts := map[int]int{}
+	created := map[int]bool{}
+	for _, e := range tr {
+		switch e.Kind {
+		case "NewSession":
+			if e.Sess > 0 {
+				created[e.Sess] = true
+			}
+		case "Logout":
+			logouts[e.Sess]++
+		case "SetStatus", "AuthMechs":
+		default:
+			if logouts[e.Sess] > 0 {
+				return h.F("c08-callback-after-logout", "callback %s(%s) began on session #%d after its Logout: %s", e.Kind, e.Arg, e.Sess, h.Calls(tr))
+			}
+		}
+	}
+	for id := range created {
+		if logouts[id] != 1 {
+			return h.F("c08-logout-count", "session #%d received %d Logout calls, want exactly 1: %s", id, logouts[id], h.Calls(tr))
+		}
+	}
+	return nil
+}
+
+func evalC08TLS(c C08TLSCase) *h.Finding {
+	var f *h.Finding
+	desc := fmt.Sprintf("%+v", c)
+	pc := ref.PConfig{TLSAvail: true, AllowInsecureAuth: true, AuthBackend: true}
+	cfg, be := serverFor(pc)
+	var logText string
+	leak, pan := h.Bubble(func() {
+		live := h.NewLive(cfg, be, false)
+		live.Greeting()
+		for _, l := range c.Before {
+			live.Send([]byte(l + "\r\n"))
+		}
+		out := live.Send([]byte("STARTTLS\r\n"))
+		if !strings.HasPrefix(string(out), "220") {
+			f = h.F("c08-tls-harness", "%s: STARTTLS answered %q", desc, out)
+			return
+		}
+		switch c.Handshake {
+		case "good":
+			if err := live.StartTLSHandshake(); err != nil {
+				f = h.F("c08-tls-harness", "%s: handshake failed: %v", desc, err)
+				return
+			}
+		case "garbage":
+			live.Send([]byte("hello"))
+		case "disconnect":
+			live.Hangup(c.Term)
+			logText = live.Log.String()
+			return
+		}
+		for _, l := range c.After {
+			live.Send([]byte(l + "\r\n"))
+		}
+		live.Hangup(c.Term)
+		logText = live.Log.String()
+	})
+	if f != nil {
+		return f
+	}
+	if pan != "" {
+		return h.F("c08-harness-panic", "%s: %s", desc, pan)
+	}
+	if leak != "" {
+		return h.F("c08-goroutine-leak", "%s: %.300s", desc, leak)
+	}
+	if g := perSessionOracle(be.Trace()); g != nil {
+		g.What = desc + ": " + g.What
+		return g
+	}
+	if strings.Contains(logText, "panic") {
+		return h.F("c08-recovered-panic", "%s: recovered panic: %s", desc, firstLogLine(logText))
+	}
+	return nil
+}
+
+func init() { h.RegisterReplayer("c08-tls", evalC08TLS) }
+
+func c08TLSCases() []C08TLSCase {
+	var out []C08TLSCase
+	befores := [][]string{{}, {"EHLO c.example"}, {"EHLO c.example", "AUTH ONE Z29vZA=="}, {"EHLO c.example", "MAIL FROM:<ok@a.example>", "RCPT TO:<ok@b.example>"}, {"EHLO c.example", "MAIL FROM:<ok@a.example>", "RCPT TO:<ok@b.example>", "BDAT 3\r\nabc"}}
+	afters := [][]string{{}, {"NOOP"}, {"MAIL FROM:<ok@c.example>", "RCPT TO:<ok@d.example>"}, {"EHLO d.example", "MAIL FROM:<ok@c.example>", "RCPT TO:<ok@d.example>", "RSET"}, {"EHLO d.example", "QUIT"}, {"QUIT"}, {"FOO", "BAR", "BAZZ", "QUUX"}}
+	for _, hs := range []string{"good", "garbage", "disconnect"} {
+		for _, b := range befores {
+			for _, a := range afters {
+				if hs == "disconnect" && len(a) > 0 {
+					continue
+				}
+				for _, term := range []string{h.TermEOF, h.TermTimeout, h.TermReset} {
+					out = append(out, C08TLSCase{Handshake: hs, Before: b, After: a, Term: term})
+				}
+			}
+		}
+	}
+	return out
 }
